@@ -32,7 +32,7 @@ from . import deser_e2e as E
 from . import model as M
 from . import pools as P
 from .model import Ann, AnyT, Coll, Disc, Enm, Lit, Mapp, NewT, Obj, Opt, Prim, Ref, Tup, Uni
-from .opt_common import call, has_fallback, has_union, new_realm, rs, short
+from .opt_common import EXT_TYPES, EnmMix, ExtRef, SubP, ext_samples, call, denan, has_fallback, has_union, new_realm, rs, same_outcome, short
 
 NoneType = type(None)
 
@@ -130,7 +130,7 @@ class UserCoercer:
             raise _reject(d, cls if cls in M.JSON_NAME else NoneType)
 
 
-class CoRef(M.Ref_):
+class CoRef(ExtRef):
     """reference deserialization with a coercer: at every position the value handed to the strict
     rules is coercer(expected JSON class, datum) -- the strict rules then type-check it"""
 
@@ -138,10 +138,13 @@ class CoRef(M.Ref_):
         super().__init__(realm, opts)
         self.co = coercer
         self.ambiguous = False
+        self.eq_only = False  # a literal position where the coerced value == a literal of another class
 
     def deser(self, td, d, c=None):
-        if isinstance(td, (Ann, NewT, Ref, AnyT, Uni, Disc)):
+        if isinstance(td, (Ann, NewT, Ref, AnyT, Uni, Disc, SubP)):
             return super().deser(td, d, c)
+        if isinstance(td, EnmMix):
+            return self.deser(Enm(td.name, td.members), d, c)
         if isinstance(td, Prim):
             return super().deser(td, self.co(M.PRIM_CLS[td.name], d), c)
         if isinstance(td, Opt):
@@ -179,6 +182,8 @@ class CoRef(M.Ref_):
                     for v in values:
                         if type(v) is type(d2) and v == d2 and v not in cands:
                             cands.append(v)
+                        elif type(d2) in (bool, int, float, str) and v == d2:
+                            self.eq_only = True
                 if not cands:
                     raise r
                 if len(cands) > 1:
@@ -235,7 +240,7 @@ def img_ok(td, got, ref: CoRef, datum, c=None) -> bool:
         return False
     if ref.ambiguous:
         return True
-    return E.image_ok(td, got, exp)
+    return E.image_ok(td, denan(got), denan(exp))
 
 
 # ---------------------------------------------------------------------------------------------
@@ -306,7 +311,7 @@ def data_for(td, tier: str, rng: random.Random) -> List[Any]:
             out.append(x)
 
     base = P.data_pool(td, tier, rng)
-    samples = P.valid_samples(td)
+    samples = ext_samples(td) + P.valid_samples(td)
     for s in samples:
         add(copy.deepcopy(s))
     for s in samples[: (4 if tier == "quick" else 8)]:
@@ -414,6 +419,8 @@ def _check_against_ref(log, td, mode, d, got, realm, opts, make_coercer, meth, m
                 return
         if any(o[0] == "ok" for o in outs):
             _fail(log, "coerced-image", td, mode, d, f"accepted with {got[1]!r} ({type(got[1]).__name__}), which is not the typed image of the datum converted per the documented table", got, [o[:2] for o in outs][:3], meth)
+        elif any(o[2].eq_only for o in outs):
+            _fail(log, "over-accept-literal-eq", td, mode, d, f"accepted (as {got[1]!r}): at a Literal / Enum position the coerced value only == a literal of another class (wrong-typed, e.g. 1.0 or True for 1)", got, [o[:2] for o in outs][:2], meth)
         else:
             _fail(log, "over-accept", td, mode, d, f"accepted (as {got[1]!r}) although no conversion of the documented table makes the datum conform", got, [o[:2] for o in outs][:2], meth)
         return
@@ -428,7 +435,7 @@ def run(report, tier: str, seed: int):
     from apischema.deserialization import deserialization_method
 
     rng = random.Random(seed)
-    pool = P.type_pool(tier)
+    pool = P.type_pool(tier) + EXT_TYPES
     realm = new_realm("coerce")
     opts = M.Opts()
     try:
@@ -490,7 +497,7 @@ def _run_main(report, tier, rng, pool, realm, opts):
                     if g[0] != "ok":
                         _fail(log, "narrowed", td, mode, d, f"accepted in strict mode (as {s[1]!r}) but {'rejected' if g[0] == 'err' else 'crashing'} with coerce=True: {rs(g[1], 200)}", g, s, co)
                         continue
-                    if union_free and not fb and not E.deep_eq(s[1], g[1]):
+                    if union_free and not fb and not E.deep_eq(denan(s[1]), denan(g[1])):
                         _fail(log, "changed-result", td, mode, d, f"union-free type: strict result {s[1]!r} but {g[1]!r} with coerce=True", g, s, co)
                         continue
                 _check_against_ref(log, td, mode, d, g, realm, mopts, lambda policy: Table(policy), co)
@@ -512,12 +519,10 @@ def _run_settings(report, tier, rng, pool, realm, opts):
             ("settings.coerce=True", lambda: setattr(settings.deserialization, "coerce", True), {"coerce": True}, {}),
             ("settings.coercer=c_csv_list", lambda: setattr(settings.deserialization, "coercer", c_csv_list), {"coerce": c_csv_list}, {"coerce": True}),
             ("settings.coercer=c_wrong_const", lambda: setattr(settings.deserialization, "coercer", c_wrong_const), {"coerce": c_wrong_const}, {"coerce": True}),
-            ("settings.coerce=True+param False", lambda: setattr(settings.deserialization, "coerce", True), {"coerce": False, "_baseline_strict": True}, {"coerce": False}),
+            ("settings.coerce=True,coerce=False", lambda: setattr(settings.deserialization, "coerce", True), {"coerce": False}, {"coerce": False}),
         ):
             settings.deserialization.coerce, settings.deserialization.coercer = prev_coerce, prev_coercer
             ap_cache.reset()
-            kw_param = dict(kw_param)
-            kw_param.pop("_baseline_strict", None)
             expected = {}
             datas = {}
             for td in pool:
@@ -545,12 +550,7 @@ def _run_settings(report, tier, rng, pool, realm, opts):
     return log
 
 
-def _same(a, b) -> bool:
-    if a[0] != b[0]:
-        return False
-    if a[0] == "ok":
-        return E.deep_eq(a[1], b[1])
-    return a[1] == b[1]
+_same = same_outcome
 
 
 def _run_custom(report, tier, rng, pool, realm, opts):
@@ -566,7 +566,7 @@ def _run_custom(report, tier, rng, pool, realm, opts):
             continue
         data = data_for(td, "quick", rng)
         rng.shuffle(data)
-        valid = [copy.deepcopy(s) for s in P.valid_samples(td)][:4]
+        valid = (ext_samples(td) + [copy.deepcopy(s) for s in P.valid_samples(td)])[:4]
         data = valid + data[:n]
         for f in CUSTOM:
             mode = f"coerce={f.__name__}"
